@@ -10,6 +10,8 @@ mod facade {
     pub use shuttle::rand::{thread_rng, Rng};
     pub use shuttle::sync::{Condvar, Mutex};
     pub use shuttle::thread::{spawn, yield_now};
+    /// share of waker threads that start only after the poller's first poll
+    pub const GATE_PROB: f64 = 0.6;
     /// a plain scheduling point (not a yield: PCT must not deprioritise the thread)
     pub fn switch() {
         shuttle::thread::sleep(std::time::Duration::ZERO);
